@@ -129,7 +129,8 @@ def keys_for(kinds, suffix_first=None, style="num"):
         if n == 0 and not (suffix_first and k in suffix_first):
             out.append(k)
         else:
-            out.append(f"{k}.{n if style == 'num' else 'abcdefgh'[n % 8] + str(n)}")
+            sfx = {"num": str(n), "alpha": "abcdefgh"[n % 8] + str(n), "dotted": f"v{n}.{n + 5}", "word": f"second_pass-{n}"}[style]
+            out.append(f"{k}.{sfx}")
     return out
 
 
